@@ -326,6 +326,12 @@ theorem all_waiters_leave_cancels_flight (hist : List Ev) (ws : List Caller)
     runs under the flight's detached context, which is what `Conc.Flight` models. -/
 theorem flight_ctx_ok : Gen.flightCtxFacts = [] := by decide
 
+/-- **Tie for appends to shared slices.**  No `append(x, …)` / append-like call has a first argument
+    that is (a field of) package-level state or of a singleton object with possibly spare capacity:
+    such a call would be a WRITE site outside init/once that the access table's write
+    classification does not see (the written memory is the backing array beyond `len`). -/
+theorem shared_appends_ok : Gen.sharedAppends = [] := by decide
+
 /-- the seeded change: starter A, joiner B, A cancels before the answer — B still gets the value,
     A gets its context error, one request, no cancelled flight (non-vacuity, by evaluation) -/
 example :
